@@ -60,7 +60,10 @@ def driverLine (inp obs : List String) : Bool × Bool × String × String :=
       (false, false, if obs == ["nothing-on-wire"] then "C13/request-not-written" else "C13/unparsable-observation", showOutcome mo)
   | ["proto", v, alpn] =>
     match protocolOf (parseVer v) with
-    | none => (obs == ["panic"], true, "-", "panic")
+    -- a version that names neither HTTP/1 nor HTTP/2 has no connection protocol: whatever is chosen for it was not asked for
+    | none =>
+      let chosen := obs == ["2"] || obs == ["11"]
+      (obs == ["panic"], !chosen, if chosen then "C13/protocol-chosen-for-unsupported-version" else "-", "panic")
     | some req =>
       let m := handshakeProtocol req (alpn == "1")
       let ms := if m == .h2 then "2" else "11"
